@@ -93,6 +93,7 @@ func DecodeField(payload *bytes.Buffer, field *Field, pen bool) error {
 	}
 	if pen && field.Type&0x8000 != 0 {
 		field.PenProvided = true
+		field.Type = field.Type ^ 0x8000
 		return utils.BinaryDecoder(payload,
 			&field.Pen,
 		)
